@@ -72,9 +72,9 @@ Proof.
     destruct (rollback_all_core (S (length (stack st))) st gs C) as (s2 & E & _ & _ & _ & K & _); [lia|].
     rewrite E in H. inversion H; subst. exact K.
   - (* handle.commit *)
-    cbn [do_op] in H. unfold guard in Hg. cbn in Hg.
+    cbn [do_op] in H.
     destruct (nth_error (handles st) h) as [[n|]|] eqn:En; [|inversion H; subst; left; reflexivity|inversion H; subst; congruence].
-    destruct (t_commit_core st gs n r st' C Hg H Hr) as [gs' [_ [_ [K|[K1 K2]]]]]; [left; exact K|right; eauto].
+    destruct (t_commit_core st gs n r st' C H Hr) as [gs' [_ [_ [K|[K1 K2]]]]]; [left; exact K|right; eauto].
   - (* handle.rollback *)
     left. cbn [do_op] in H. unfold guard in Hg. cbn in Hg.
     destruct (nth_error (handles st) h) as [[n|]|] eqn:En; [|inversion H; subst; reflexivity|inversion H; subst; congruence].
@@ -99,16 +99,11 @@ Theorem commit_publishes : forall st r st', Inv st -> guard st OCommit = true ->
 Proof.
   intros st r st' I Hg H Hr.
   destruct (do_op_inv st OCommit r st' I Hg H) as [[gs C] B]; [congruence|].
-  cbn [do_op] in H. unfold guard in Hg. cbn in Hg. destruct I as [gs0 C0].
+  cbn [do_op] in H. destruct I as [gs0 C0].
   destruct (autobegin_core st gs0 C0) as [gs1 [C1 [A1 A2]]].
-  assert (HP : PD (hdA (autobegin st)) (map fks (tl (stack (autobegin st))))).
-  { destruct (stack st) as [|f rest] eqn:Es.
-    - destruct (A2 eq_refl) as [f [X _]]. rewrite X. exact Logic.I.
-    - destruct (A1 ltac:(discriminate)) as [_ X]. rewrite X, Es. cbn [tl].
-      unfold g2_all in Hg. rewrite Es in Hg. apply (guard_PD st gs0 f rest C0); eauto. }
   assert (Hl : length (stack (autobegin st)) < S (S (length (stack st)))).
   { unfold autobegin. destruct (stack st) eqn:Es; cbn; rewrite ?Es; cbn; lia. }
-  destruct (commit_all_core _ _ gs1 r st' C1 HP Hl H) as [gs' [C' B']]; [congruence|].
+  destruct (commit_all_core _ _ gs1 r st' C1 Hl H) as [gs' [C' B']]; [congruence|].
   destruct (B' Hr) as [S1 Cl1]. split; [exact S1|].
   destruct C' as [_ _ D _ _]. destruct D as [_ _ D4 [D5 _]]. rewrite S1 in *.
   split; [rewrite D5; destruct gs'; reflexivity|]. split; [symmetry; apply D4; intros f []|exact Cl1].
